@@ -4,7 +4,7 @@
 # and records the outcome under "recheck" in /verif/seeded/<seed-name>/meta.json
 NAME=$1; shift
 OUT=/verif/seeded/$NAME
-WT=/tmp/wt/head
+WT=${RESEED_WT:-/tmp/wt/head}
 cd $WT || exit 9
 git checkout -q -- . ; git checkout -q --detach $(git -C /repo rev-parse HEAD)
 git apply $OUT/patch.diff || { echo "$NAME: patch does not apply on HEAD"; exit 9; }
